@@ -100,6 +100,7 @@ func runCheck(args []string) {
 	propFile := fs.String("prop", "", "property spec json")
 	timeout := fs.Int("timeout", 0, "per-obligation timeout (s); default by tier")
 	keep := fs.String("dump", "", "keep SMT files here")
+	mutant := fs.String("mutant", "", "only apply this patch through an overlay and report whether the property's obligations catch it (the working tree and the evidence are not touched)")
 	fs.Parse(args)
 	t0 := time.Now()
 	fail := func(format string, a ...any) {
@@ -138,6 +139,14 @@ func runCheck(args []string) {
 	patterns := defaultPatterns
 	if len(ps.Patterns) > 0 {
 		patterns = ps.Patterns
+	}
+	if *mutant != "" {
+		selfTestOnly = []string{*mutant}
+		for _, r := range runSelfTests(&ps, *root, *repo, patterns, tags, to, loadKnownFindings(filepath.Join(*root, "known_findings.txt"))) {
+			b, _ := json.Marshal(r)
+			fmt.Println(string(b))
+		}
+		return
 	}
 	e := newEngine(*repo)
 	if err := e.loadSpecDir(filepath.Join(*root, "specs")); err != nil {
@@ -349,6 +358,9 @@ func runCheck(args []string) {
 	eb, _ := json.MarshalIndent(ev, "", " ")
 	os.WriteFile(filepath.Join(*root, "evidence", ps.ID+".json"), eb, 0o644)
 	fmt.Printf("%s %s: %d obligations, %d discharged, %d violations, %d known findings, %.1fs (load %.1fs)\n", ps.ID, *tier, nObl, nOK, nViol, len(knownHit), time.Since(t0).Seconds(), loadS)
+	if *keep == "" {
+		os.RemoveAll(dir) // os.Exit below skips deferred calls
+	}
 	if len(funcErrs) > 0 {
 		os.Exit(1)
 	}
